@@ -11,6 +11,7 @@ package props
 import (
 	"fmt"
 	"strings"
+	"time"
 
 	"verif/harness/hx"
 )
@@ -161,15 +162,23 @@ func c13Gen(g *hx.Gen) {
 		}
 		ac := g.Chance(0.4)
 		var ops []string
-		cycles := g.Pick(1, 1, 2)
+		cycles := g.Pick(1, 1, 2, 2, 3)
+		total := 0
 		for cy := 0; cy < cycles; cy++ {
 			pulls := cnt + 1
 			if g.Chance(0.25) {
 				pulls = g.Intn(cnt + 1)
 			}
 			ops = c11Cycle(g, ops, c, ty, cnt, pulls, true, g.Pick(4, 50))
+			total += cnt
+			cnt = g.Pick(cnt, g.Range(1, 3)*c+g.Pick(0, 1), g.Intn(c+1))
 		}
-		fault := fmt.Sprintf("%s:%d", c13Points[g.Intn(len(c13Points))], g.Intn(cnt+1))
+		if g.Chance(0.2) { // a rejected Push (another type) is a no-op, with faults too
+			i := g.Intn(len(ops) + 1)
+			ops = append(ops[:i:i], append([]string{"x"}, ops[i:]...)...)
+		}
+		// the fault may fall into any cycle of the history
+		fault := fmt.Sprintf("%s:%d", c13Points[g.Intn(len(c13Points))], g.Intn(total+1))
 		g.Case(c13Line(true, c, ac, false, ty, ops, c13Sched(g, c, ac, ops, 2), fault))
 	}
 	// (3) residue of the temporary directory after fault-free histories, both modes
@@ -198,10 +207,16 @@ func c13Gen(g *hx.Gen) {
 			}
 			ops = c11Cycle(g, ops, c, ty, cnt, pulls, clear, g.Pick(4, 50))
 		}
+		if g.Chance(0.15) {
+			i := g.Intn(len(ops) + 1)
+			ops = append(ops[:i:i], append([]string{"x"}, ops[i:]...)...)
+		}
 		g.Case(c13Line(g.Chance(0.5), c, ac, aclean, ty, ops, nil, "-"))
 	}
 }
 
 func init() {
-	hx.Register(&hx.Prop{ID: "C13", Gen: c13Gen, Exec: c13Exec})
+	// a workload is replayed with an 800 ms watchdog per step when a step looked blocked: on a
+	// loaded machine a long forced schedule can exceed the default 20 s
+	hx.Register(&hx.Prop{ID: "C13", Gen: c13Gen, Exec: c13Exec, Timeout: 90 * time.Second})
 }
